@@ -62,6 +62,7 @@ take place; distinct = distinct hash of (program, source, mode, layout).",
             "probe.read_through_list_element",
             "probe.read_through_chain",
             "probe.mutable_variable_reassigned",
+            "probe.effectful_value_read_again",
             "probe.layout.descending",
             "probe.layout.scatter",
             "probe.layout.reuse",
@@ -94,6 +95,10 @@ enum Stz {
     DefTag { query: String, name: String, mutable: bool },
     /// strict only: `set @y.NAME = "M:" TAG(@y)` — needs an own, mutable definition on @y
     Mutate { query: String, name: String },
+    /// `let @x.NAME = (node)`: the value has an effect (a graph node) and must be computed once
+    DefNode { query: String, name: String },
+    /// `attr (@y.NAME) r<idx> = TAG(@y)`: annotates the shared graph node through another route
+    ReadNode { query: String, name: String },
     /// `let @c.LINK = @f` (syntax-node-valued)
     DefLink { query: String, name: String },
     /// `for y in @ys { let @x.NAME = TAG(@x) }`: one definition on the fixed node @x per list
@@ -213,6 +218,13 @@ fn gen_schema(r: &mut Rng, lazy: bool) -> Schema {
             if r.chance(1, 2) {
                 s.stanzas.push(Stz::ReadList { query: "(parameters (identifier)* @ys)".into(), name: name.clone() });
             }
+            if r.chance(1, 2) {
+                s.stanzas.push(Stz::DefNode { query: "(identifier) @x".into(), name: "gn".into() });
+                for _ in 0..r.range(1, 3) {
+                    let q = *r.pick(&["(identifier) @y", "(_ (identifier) @y)", "(call function: (identifier) @y)", "(assignment left: (identifier) @y)"]);
+                    s.stanzas.push(Stz::ReadNode { query: q.into(), name: "gn".into() });
+                }
+            }
             let lq = *r.pick(LINK_QUERIES);
             s.stanzas.push(Stz::DefLink { query: lq.into(), name: "lnk".into() });
             s.stanzas.push(Stz::ReadChain { query: link_reader_for(lq).into(), link: "lnk".into(), name: name.clone() });
@@ -229,6 +241,16 @@ fn gen_schema(r: &mut Rng, lazy: bool) -> Schema {
                 if !used.contains(&q) {
                     used.push(q);
                     s.stanzas.push(Stz::DefTag { query: q.into(), name: name.clone(), mutable: false });
+                }
+            }
+            // an unrelated variable on nodes between readers and the defining ancestor must not
+            // stop the search for `tag`
+            if r.chance(1, 2) {
+                for _ in 0..r.range(1, 2) {
+                    let q = *r.pick(&["(function_definition) @x", "(block) @x", "(call) @x", "(argument_list) @x", "(assignment) @x", "(expression_statement) @x", "(binary_operator) @x"]);
+                    if !s.stanzas.iter().any(|z| matches!(z, Stz::DefTag { query, name, .. } if query == q && name == "other")) {
+                        s.stanzas.push(Stz::DefTag { query: q.into(), name: "other".into(), mutable: false });
+                    }
                 }
             }
             let m = r.range(1, 3);
@@ -319,6 +341,17 @@ fn render(s: &Schema, order: &[usize]) -> String {
                 name,
                 tag_expr("@x")
             )),
+            Stz::DefNode { query, name } => out.push_str(&format!(
+                "{}\n{{\n  let @x.{} = (node)\n}}\n\n",
+                query, name
+            )),
+            Stz::ReadNode { query, name } => out.push_str(&format!(
+                "{}\n{{\n  attr (@y.{}) r{} = {}\n}}\n\n",
+                query,
+                name,
+                idx,
+                tag_expr("@y")
+            )),
             Stz::Mutate { query, name } => out.push_str(&format!(
                 "{}\n{{\n  set @y.{} = (format \"M:{{}}\" {})\n}}\n\n",
                 query,
@@ -387,6 +420,9 @@ struct Expected {
     list_reads: usize,
     chain_reads: usize,
     mutations: usize,
+    shared_reads: usize,
+    /// graph nodes created by `(node)` definitions: their attribute maps, sorted
+    shared: Vec<BTreeMap<String, String>>,
 }
 
 /// The reference model.  In lazy mode every definition is collected before any read is
@@ -397,6 +433,8 @@ fn model(s: &Schema, order: &[usize], lazy: bool, tree: &Tree, source: &str) -> 
     let mut tags: BTreeMap<String, BTreeMap<usize, String>> = BTreeMap::new();
     let mut mutable_defs: std::collections::BTreeSet<(String, usize)> = Default::default();
     let mut links: BTreeMap<String, BTreeMap<usize, Node>> = BTreeMap::new();
+    // (name -> node id -> index into e.shared)
+    let mut shared_of: BTreeMap<String, BTreeMap<usize, usize>> = BTreeMap::new();
     // two passes in lazy mode (definitions, then reads); one pass in file order in strict mode
     let passes: Vec<(Vec<usize>, bool, bool)> = if lazy {
         vec![(order.to_vec(), true, false), (order.to_vec(), false, true)]
@@ -410,6 +448,45 @@ fn model(s: &Schema, order: &[usize], lazy: bool, tree: &Tree, source: &str) -> 
             }
             let st = &s.stanzas[idx];
             match st {
+                Stz::DefNode { query, name } if do_defs => {
+                    for m in matches(query, "x", tree, source)? {
+                        let n = m[0];
+                        e.definitions += 1;
+                        e.shared.push(BTreeMap::new());
+                        let idx2 = e.shared.len() - 1;
+                        if shared_of.entry(name.clone()).or_default().insert(n.id(), idx2).is_some() {
+                            e.fails = true;
+                            e.why = format!("{} defined twice on {}", name, tag_of(&n));
+                        }
+                    }
+                }
+                Stz::ReadNode { query, name } if do_reads => {
+                    for m in matches(query, "y", tree, source)? {
+                        let n = m[0];
+                        e.reads += 1;
+                        e.shared_reads += 1;
+                        match shared_of.get(name).and_then(|mm| mm.get(&n.id())).cloned() {
+                            Some(i) => {
+                                let key = format!("r{}", idx);
+                                let val = tag_of(&n);
+                                match e.shared[i].get(&key) {
+                                    None => {
+                                        e.shared[i].insert(key, val);
+                                    }
+                                    Some(old) if *old == val => {}
+                                    Some(_) => {
+                                        e.fails = true;
+                                        e.why = "conflicting attribute on a shared node".into();
+                                    }
+                                }
+                            }
+                            None => {
+                                e.fails = true;
+                                e.why = format!("{} undefined on {}", name, tag_of(&n));
+                            }
+                        }
+                    }
+                }
                 Stz::Mutate { query, name } if do_defs => {
                     for m in matches(query, "y", tree, source)? {
                         let n = m[0];
@@ -546,6 +623,7 @@ fn model(s: &Schema, order: &[usize], lazy: bool, tree: &Tree, source: &str) -> 
         }
     }
     e.rows.sort();
+    e.shared.sort();
     Ok(e)
 }
 
@@ -571,6 +649,8 @@ fn schema_to_json(s: &Schema) -> J {
         .map(|x| match x {
             Stz::DefTag { query, name, mutable } => json!({"k": "deftag", "query": query, "name": name, "mutable": mutable}),
             Stz::Mutate { query, name } => json!({"k": "mutate", "query": query, "name": name}),
+            Stz::DefNode { query, name } => json!({"k": "defnode", "query": query, "name": name}),
+            Stz::ReadNode { query, name } => json!({"k": "readnode", "query": query, "name": name}),
             Stz::DefLink { query, name } => json!({"k": "deflink", "query": query, "name": name}),
             Stz::DefInLoop { query, name } => json!({"k": "defloop", "query": query, "name": name}),
             Stz::ReadDirect { query, name } => json!({"k": "read", "query": query, "name": name}),
@@ -597,6 +677,8 @@ fn schema_from_json(j: &J) -> Schema {
                     .map(|x| match x["k"].as_str().unwrap_or("") {
                         "deftag" => Stz::DefTag { query: g(x, "query"), name: g(x, "name"), mutable: x["mutable"].as_bool().unwrap_or(false) },
                         "mutate" => Stz::Mutate { query: g(x, "query"), name: g(x, "name") },
+                        "defnode" => Stz::DefNode { query: g(x, "query"), name: g(x, "name") },
+                        "readnode" => Stz::ReadNode { query: g(x, "query"), name: g(x, "name") },
                         "deflink" => Stz::DefLink { query: g(x, "query"), name: g(x, "name") },
                         "defloop" => Stz::DefInLoop { query: g(x, "query"), name: g(x, "name") },
                         "read" => Stz::ReadDirect { query: g(x, "query"), name: g(x, "name") },
@@ -620,6 +702,7 @@ pub struct Stats {
     pub list_reads: usize,
     pub chain_reads: usize,
     pub mutations: usize,
+    pub shared_reads: usize,
     pub outcome: &'static str,
     pub leaked: i64,
     pub transcript: u64,
@@ -650,6 +733,7 @@ fn check_case(case: &Case) -> Result<(Stats, Option<Found>), String> {
     st.list_reads = exp.list_reads;
     st.chain_reads = exp.chain_reads;
     st.mutations = exp.mutations;
+    st.shared_reads = exp.shared_reads;
     let file = simrun::load(&case.text).map_err(|e| format!("schema program rejected: {}\n{}", e, case.text))?;
     let fns = simrun::functions();
     let vars = simrun::make_variables(&Vec::new(), &[]);
@@ -688,20 +772,44 @@ fn check_case(case: &Case) -> Result<(Stats, Option<Found>), String> {
         (Outcome::Error(_), true) => None,
         (Outcome::Graph(g), false) => {
             let mut rows: Vec<(String, String, String)> = Vec::new();
+            let mut shared: Vec<BTreeMap<String, String>> = Vec::new();
             let mut bad = None;
             for n in &g.nodes {
                 let get = |k: &str| match n.attrs.get(k) {
                     Some(CVal::Str(s)) => Some(s.clone()),
                     _ => None,
                 };
+                if !n.attrs.contains_key("rd") {
+                    // a node created by a `(node)` definition and annotated by readers
+                    let mut m = BTreeMap::new();
+                    for (k, v) in &n.attrs {
+                        match v {
+                            CVal::Str(s) => {
+                                m.insert(k.clone(), s.clone());
+                            }
+                            other => bad = Some(format!("shared node with unexpected attribute {} = {:?}", k, other)),
+                        }
+                    }
+                    shared.push(m);
+                    continue;
+                }
                 match (get("rd"), get("self"), get("got")) {
                     (Some(a), Some(b), Some(c)) => rows.push((a, b, c)),
                     _ => bad = Some(format!("reader node with unexpected attributes: {:?}", n.attrs)),
                 }
             }
             rows.sort();
+            shared.sort();
             if let Some(b) = bad {
                 Some(Found { class: "wrong-value", detail: b })
+            } else if shared != exp.shared {
+                Some(Found {
+                    class: "shared-node-differs",
+                    detail: format!(
+                        "layout {}: the graph nodes held by scoped variables differ from the model: {} nodes with attribute maps {:?}..., expected {} with {:?}...",
+                        case.policy.name(), shared.len(), shared.iter().take(2).collect::<Vec<_>>(), exp.shared.len(), exp.shared.iter().take(2).collect::<Vec<_>>()
+                    ),
+                })
             } else if rows != exp.rows {
                 let diff = rows
                     .iter()
@@ -749,7 +857,7 @@ pub fn make_case(ctx: &ShardCtx, i: u64) -> Case {
     } else {
         // strict needs definers first
         order.sort_by_key(|i| match schema.stanzas[*i] {
-            Stz::DefTag { .. } | Stz::DefLink { .. } | Stz::DefInLoop { .. } => 0,
+            Stz::DefTag { .. } | Stz::DefLink { .. } | Stz::DefInLoop { .. } | Stz::DefNode { .. } => 0,
             Stz::Mutate { .. } => 1,
             _ => 2,
         });
@@ -908,6 +1016,7 @@ pub fn run_shard(ctx: &ShardCtx, rep: &mut Report) {
         rep.add("probe.read_through_chain", st.chain_reads as u64);
         if !st.expected_fail {
             rep.add("probe.mutable_variable_reassigned", st.mutations as u64);
+            rep.add("probe.effectful_value_read_again", st.shared_reads as u64);
         }
         let defs_first = case.order.iter().map(|i| match case_stanza_is_def(&case, *i) { true => 0, false => 1 }).collect::<Vec<_>>();
         if !case.lazy && defs_first.windows(2).any(|w| w[0] > w[1]) && !st.expected_fail && st.inherited_reads > 0 {
@@ -965,7 +1074,7 @@ pub fn run_shard(ctx: &ShardCtx, rep: &mut Report) {
 fn case_stanza_is_def(c: &Case, i: usize) -> bool {
     c.schema
         .as_ref()
-        .map(|s| matches!(s.stanzas[i], Stz::DefTag { .. } | Stz::DefLink { .. } | Stz::DefInLoop { .. }))
+        .map(|s| matches!(s.stanzas[i], Stz::DefTag { .. } | Stz::DefLink { .. } | Stz::DefInLoop { .. } | Stz::DefNode { .. }))
         .unwrap_or(false)
 }
 
